@@ -107,6 +107,8 @@ func c07Render(c c07Case, r *rand.Rand) string {
 			return rule(v+":foo", "@rx .", "")
 		case "rxkey":
 			return rule(v+":/^fo/|"+v+":'/^ba/'", "@rx .", "") // plain and quoted regex key (the quoted one ends the list)
+		case "rxopen": // regex keys left open at the end of the list: quote missing, slash missing, both
+			return rule("ARGS|"+v+":'/^ba/", "@rx .", "") + strings.Replace(rule("&"+v+":'/^ba", "@rx .", ""), "id:1,", "id:2,", 1) + strings.Replace(rule("!"+v+":/^ba", "@rx .", ""), "id:1,", "id:3,", 1)
 		case "neg":
 			return rule("ARGS|!"+v, "@rx .", "")
 		case "negkey":
@@ -337,7 +339,7 @@ func panicSite(p string) string {
 
 // C07: the library never panics, whatever configuration text or traffic it is given.
 func C07(run *vf.Run) {
-	run.Rule = "Grammar_MC.tla over a Vocab module generated at check time from the real registries in the source tree (every directive, action, operator, transformation, variable, ctl option): TLC enumerates every vocabulary item in every syntactic role (variables: plain / count / key / regex key / negation / negated key / macro / macro key / setvar key / ctl target / update target; operators: good / empty / macro / degenerate / negated argument; actions: bare / value / quoted / empty / macro / +N / -N / !key / duplicated / upper-case; transformations: single / after none / twice / multiMatch; ctl options and directives with good / boundary / negative / garbage / empty values); each case is spelled as SecLang, compiled (NewWAF under recover), and every accepted configuration is driven with 13 traffic shapes (GET with malformed escapes and cookies, escapes cut short at the very end of a name or value, urlencoded, JSON, malformed JSON, XML, malformed XML, multipart with upload, truncated multipart, body-before-headers and response-before-request call orders) under recover() and a watchdog; plus byte-level mutations (delete / duplicate / flip / insert delimiter) of every spelled case. Non-trivial = an accepted configuration that was driven with traffic"
+	run.Rule = "Grammar_MC.tla over a Vocab module generated at check time from the real registries in the source tree (every directive, action, operator, transformation, variable, ctl option): TLC enumerates every vocabulary item in every syntactic role (variables: plain / count / key / regex key / regex key left open / negation / negated key / macro / macro key / setvar key / ctl target / update target; operators: good / empty / macro / degenerate / negated argument; actions: bare / value / quoted / empty / macro / +N / -N / !key / duplicated / upper-case; transformations: single / after none / twice / multiMatch; ctl options and directives with good / boundary / negative / garbage / empty values); each case is spelled as SecLang, compiled (NewWAF under recover), and every accepted configuration is driven with 13 traffic shapes (GET with malformed escapes and cookies, escapes cut short at the very end of a name or value, urlencoded, JSON, malformed JSON, XML, malformed XML, multipart with upload, truncated multipart, body-before-headers and response-before-request call orders) under recover() and a watchdog; plus byte-level mutations (delete / duplicate / flip / insert delimiter) of every spelled case. Non-trivial = an accepted configuration that was driven with traffic"
 	run.Exhaustive = true
 	run.Assume("byte-level mutation is done on the Go side (seeded); the specification contributes the corpus that spells every vocabulary item in every role and the expectation 'returns normally'")
 	root := repoRoot()
